@@ -36,6 +36,8 @@ GENERATORS = [
     ('gen_py_anb', 'PyAnB.lean'),
     ('gen_py_api', 'PyApi.lean'),
     ('gen_py_textfn', 'PyTextFn.lean'),
+    ('gen_py_smallfn', 'PySmallFn.lean'),
+    ('gen_py_attrsel', 'PyAttrSel.lean'),
 ]
 
 
